@@ -87,4 +87,15 @@ FolderOrder(files) == SortSeq(files, LAMBDA f, g : f.key < g.key)
 Fits(D, b) == LET n == Cardinality(Universe(D))  m == Len(D) IN
               b.emin <= n /\ n <= b.emax /\ b.rmin <= m /\ m <= b.rmax
 SelectedIdx(Ds, b) == SelectSeq([j \in DOMAIN Ds |-> j], LAMBDA j : Fits(Ds[j], b))
+
+\* ---------------------------------------------------------------- the algorithm factory
+\* get_algorithm(Algorithm.X, parameters) "returns an instance of the specified algorithm"
+AlgNames == <<"EXACT", "PARCONS", "BIOCONSERT", "BIOCO", "KWIKSORTRANDOM", "PICKAPERM", "BORDACOUNT", "COPELANDMETHOD">>
+FactoryClass(name) == CASE name = "EXACT" -> "ExactAlgorithm" [] name = "PARCONS" -> "ParCons"
+                        [] name = "BIOCONSERT" -> "BioConsert" [] name = "BIOCO" -> "BioCo"
+                        [] name = "KWIKSORTRANDOM" -> "KwikSortRandom" [] name = "PICKAPERM" -> "PickAPerm"
+                        [] name = "BORDACOUNT" -> "BordaCount" [] name = "COPELANDMETHOD" -> "CopelandMethod"
+\* the algorithms announced as compatible with any scoring scheme: those that never refuse a scheme on incomplete
+\* rankings (Borda, PickAPerm and BioCo, which starts from Borda, do)
+AnyScheme == {"EXACT", "PARCONS", "BIOCONSERT", "KWIKSORTRANDOM", "COPELANDMETHOD"}
 =============================================================================
